@@ -43,6 +43,7 @@ partial def loop (h : IO.FS.Stream) (out : IO.FS.Stream) (st : DState) : IO Unit
   if line.isEmpty then return ()
   let (st', outs) := handle st line
   for o in outs do out.putStrLn o
+  out.flush
   loop h out st'
 
 def main : IO Unit := do
